@@ -9,9 +9,9 @@ ASSUMPTIONS = ["fault-free transport (faults: C09/C10); the simulated terminal a
 
 def run_histories(ctx, out, cases, what, gap=None):
     """cases: list of (cfg, calls, queues, tserial, ttid). Compares implementation, model and abstract specification.
-    `gap`: the terminal waits that many virtual seconds before each item it sends (slow but talking terminal) — the
-    model has no notion of such delays, so these runs compare the IMPLEMENTATION with the specification only, with
-    time stamps removed: gaps shorter than the per-packet time-out must not change any result or any byte sent."""
+    `gap`: the terminal waits that many virtual seconds before each item it sends (slow but talking terminal).
+    Implementation = model exactly (time stamps included); against the specification the time stamps are removed:
+    gaps shorter than the per-packet time-out must not change any result or any byte sent."""
     import re
     spec = S.load_spec()
     ops, want = [], []
@@ -34,11 +34,10 @@ def run_histories(ctx, out, cases, what, gap=None):
                 res.append(a.read_card(classify_status))
         ops.append(G.op_line(cfg, calls, G.script_str(cfg, queues, None, None, tserial, ttid) + (f" gap={gap}" if gap else "")))
         want.append(" | ".join(r + "@0" for r in res) + " || c0:" + ",".join(["open@0"] + G.expected_log(a.tx) + ["close@0"]))
+    impl, model = ctx.pair(ops)
+    out.compare("client(history)" + (" slow terminal" if gap else ""), ops, impl, model)
     if gap:
-        impl = [re.sub(r"@\d+", "@0", x) for x in ctx.harness(ops)]
-    else:
-        impl, model = ctx.pair(ops)
-        out.compare("client(history)", ops, impl, model)
+        impl = [re.sub(r"@\d+", "@0", x) for x in impl]
     out.evaluations += len(ops)
     for o, r, w in zip(ops, impl, want):
         out.nontrivial.add(o)
@@ -135,13 +134,16 @@ def run(ctx, out):
                  "abort": [P.abort(0x6c)], "noreceipt": [P.status(result_code=0), P.completion()],
                  # a receipt number is reported, then the terminal aborts after all: the call fails and opens nothing
                  "receipt_abort": [P.status(receipt_no=77, result_code=0), P.abort(0x6c)]}
-    fin_out = {"ok": [P.status(result_code=0, amount=100, trace_number=7), P.completion()], "abort": [P.pr_abort(0xb4)]}
-    can_out = {"ok": [P.completion()], "abort": [P.pr_abort(0xb5)]}
+    # aborts may name a receipt number (ZVT 2.10.1: "pre-authorisation not found", BMP 87 = a pending one): the first / second receipt
+    # handed out in this history — i.e. usually ANOTHER open token's — must not redirect the call or re-open anything
+    fin_out = {"ok": [P.status(result_code=0, amount=100, trace_number=7), P.completion()], "abort": [P.pr_abort(0xb4)],
+               "abort_r1": [P.pr_abort(0xb8, 11)], "abort_r2": [P.pr_abort(0xb8, 4242)]}
+    can_out = {"ok": [P.completion()], "abort": [P.pr_abort(0xb5)], "abort_r1": [P.pr_abort(0xb8, 11)], "abort_r2": [P.pr_abort(0xb8, 4242)]}
     letters = []
     for t in tokens:
         for o in ("ok1", "ok2", "abort", "noreceipt", "receipt_abort"):
             letters.append((f"begin:{tok(t)}", "0622", begin_out[o]))
-        for o in ("ok", "abort"):
+        for o in ("ok", "abort", "abort_r1", "abort_r2"):
             letters.append((f"commit:{tok(t)}:100", "0623", fin_out[o]))
             letters.append((f"cancel:{tok(t)}", "0625", can_out[o]))
     depth = 4 if thorough else 3
@@ -196,7 +198,7 @@ def run(ctx, out):
     slow = rng.sample(cases, min(len(cases), 600 if thorough else 150))
     sops, _ = run_histories(ctx, out, slow, "begin/commit/cancel history, slow terminal", gap=14)
     out.count("slow-terminal", len(sops))
-    out.rule = (f"call histories over three tokens (one short, two long ones sharing a 24-character prefix) x terminal outcomes (begin: receipt issued / aborted / completed without receipt / receipt reported and then aborted; commit, cancel: completed / aborted): all histories up to depth 2 x max 0..3, "
+    out.rule = (f"call histories over three tokens (one short, two long ones sharing a 24-character prefix) x terminal outcomes (begin: receipt issued / aborted / completed without receipt / receipt reported and then aborted; commit, cancel: completed / aborted / aborted naming the receipt number of the first or second reservation of the history): all histories up to depth 2 x max 0..3, "
                 f"{'all' if thorough else '5000 sampled'} of depth {depth}, random walks to depth 40; the real Feig client against the simulated terminal must return exactly the results of the abstract token map and send exactly "
                 "the specified packets (refused calls: none); implementation = model = abstract specification. non-trivial = distinct (max, history, outcomes)")
     out.samples = [ops[5][:400], {"op": ops[-1][:200], "impl": impl[-1][:300]}]
